@@ -426,4 +426,82 @@ SINCE_UNIT = Unit("C04.extract_since", EX + "extract_since", since_setup, post=[
                   allowed_raise=lambda ctx: And(is_kind(ctx.exc.t, "TypeError"), Not(Val.is_none(ctx.args["outer"].t)),
                                                 Not(is_kind(ctx.args["outer"].t, "frame"))))
 
-UNITS = [TF_UNIT, GTC_UNIT, STITCH_UNIT, SLICE_UNIT, LIMIT_UNIT, SINCE_UNIT]
+
+# ------------------------------------------------------------------------------------------------ extract_until
+UNTIL = EX + "extract_until"
+u_anc = Function("fback_anc_u", Val, IntSort(), Val)
+
+
+def until_setup(ex, p):
+    inner = sym_ref(p, "inner_frame", "frame")
+    limit = sym_any(p, "limit")
+    wc, rct = sym_bool(p, "with_contexts"), sym_bool(p, "recurse_child_tasks")
+    p.pc.append(u_anc(inner.t, 0) == inner.t)
+    p.env.update(inner_frame=inner, limit=limit, with_contexts=wc, recurse_child_tasks=rct)
+    ex.unit_args = dict(inner=inner, limit=limit, wc=wc, rct=rct)
+    return ex.unit_args
+
+
+def until_inv():
+    def setup(ctx):
+        ctx.p.ghost["un_n"] = IntVal(0)
+    def ghost_havoc(ctx):
+        ctx.p.ghost["un_n"] = fresh_int("un_n")
+    def qf(ctx):
+        n = ctx.p.ghost["un_n"]
+        o = ctx.v("outer_frame")
+        return And(n >= 0, o == u_anc(ctx.ex.unit_args["inner"].t, n), Or(Val.is_none(o), And(is_kind(o, "frame"), Val.a(o) >= 0)),
+                   ctx.v("limit") == ctx.v0("limit"), ctx.v("inner_frame") == ctx.v0("inner_frame"))
+    def defs(ctx):
+        n = ctx.p.ghost["un_n"]
+        o = ctx.v("outer_frame")
+        fb = ctx.H.getf(o, "f_back")
+        return And(u_anc(ctx.ex.unit_args["inner"].t, n + 1) == fb,
+                   Implies(is_kind(o, "frame"), Or(Val.is_none(fb), And(is_kind(fb, "frame"), Val.a(fb) >= 0))))
+    def not_limit_before(ctx):
+        # every frame walked past is neither the limit nor None
+        n = ctx.p.ghost["un_n"]
+        prev = u_anc(ctx.ex.unit_args["inner"].t, n - 1)
+        return And(prev != ctx.v0("limit"), Not(Val.is_none(prev)))
+    return Inv("C04.extract_until.walk", qf=qf, defs=defs, setup=setup, ghost_havoc=ghost_havoc, header="outer_frame is not limit",
+               steps=[("C04.extract_until.limit_not_passed", not_limit_before)])
+
+
+def until_before_stmt(ex, n, p):
+    if isinstance(n, ast.Assign) and ast.unparse(n).replace(" ", "") == "outer_frame=outer_frame.f_back" and "un_n" in p.ghost:
+        p.ghost["un_n"] = p.ghost["un_n"] + 1
+
+
+def until_post(ctx):
+    a = ctx.args
+    calls = [t for t in ctx.p.trace if t[0] == "extract"]
+    if len(calls) != 1:
+        return BoolVal(False)
+    sl, kw = calls[0][1][0], calls[0][2]
+    H = ctx.H
+    lim = a["limit"].t
+    n = ctx.p.ghost.get("un_n")
+    common = And(is_kind(sl, "StackSlice"), H.getf(sl, "inner") == a["inner"].t, kw["with_contexts"] == a["wc"].t, kw["recurse_child_tasks"] == a["rct"].t)
+    if n is not None:
+        o = H.getf(sl, "outer")
+        # frame limit: the slice starts at the limit frame, which is an f_back ancestor of inner_frame (or, on a cyclic chain,
+        # at the last frame before the chain returns to inner_frame)
+        return And(common, is_kind(lim, "frame"), H.getf(sl, "limit") == NONE, o == u_anc(a["inner"].t, n), Not(Val.is_none(o)),
+                   Or(o == lim, H.getf(o, "f_back") == a["inner"].t))
+    return And(common, Or(Val.is_intv(lim), Val.is_boolv(lim), Val.is_none(lim)), H.getf(sl, "outer") == NONE, H.getf(sl, "limit") == lim)
+
+
+def until_raise(ctx):
+    lim = ctx.args["limit"].t
+    n = ctx.p.ghost.get("un_n")
+    if n is not None:
+        return And(is_kind(ctx.exc.t, "RuntimeError"), is_kind(lim, "frame"), Val.is_none(u_anc(ctx.args["inner"].t, n)))
+    return And(is_kind(ctx.exc.t, "TypeError"), Not(is_kind(lim, "frame")), Not(Val.is_intv(lim)), Not(Val.is_boolv(lim)), Not(Val.is_none(lim)))
+
+
+UNTIL_UNIT = Unit("C04.extract_until", UNTIL, until_setup, post=[Clause("C04.extract_until.maps_to_StackSlice", until_post)],
+                  bindings=dict(EXTRACT_BINDINGS, extract=contract_extract), methods=dict(STD_METHODS), ctors=dict(CTORS), known_classes=KNOWN,
+                  invariants={(UNTIL, "while#1"): until_inv()}, before_stmt=until_before_stmt, allowed_raise=until_raise,
+                  assumptions=["ghost fback_anc_u(x, n) is the n-th f_back ancestor (defining equations); a frame's f_back is None or a frame"])
+
+UNITS = [TF_UNIT, GTC_UNIT, STITCH_UNIT, SLICE_UNIT, LIMIT_UNIT, SINCE_UNIT, UNTIL_UNIT]
